@@ -1,6 +1,6 @@
 (* C10 — A failed parse reports a real failure offset - the furthest one without memo. *)
 From PegV Require Import Utf8 Utf8Facts State Terminals TerminalsSpec TerminalsOk Syntax Fields
-  FieldsFacts GetFieldsFacts Literals LiteralsFacts Model Spec ShapeFacts ErrLog Sim Conform ConformX Extracted.
+  FieldsFacts GetFieldsFacts Literals LiteralsFacts Model Spec ShapeFacts ErrLog Sim Conform ConformX Extracted Real.
 
 Theorem C10_facts :
   rec_le Extracted.scfg = true /\ Extracted.tcfg = term_cfg_expected /\
@@ -48,3 +48,18 @@ Theorem C10_record_error : forall st e,
   far (record_error Extracted.scfg st e) = furthest_latest (far st) [e].
 Proof. intros. apply record_error_far. reflexivity. Qed.
 Print Assumptions C10_record_error.
+
+(* Every grammar - @memoize and @leftrec rules included - every input, arbitrary
+   stateful hooks, every setting of the decision points: the error a failed
+   parse reports is an entry of the log of match attempts that failed during
+   that very parse (a terminal, check, extern or lookahead attempt, recorded
+   with the offset of the state at which it was made), unless it is the
+   left-recursion sentinel or the farthest-error default.  (The offset of every
+   logged attempt is a character boundary inside the input: C04_errpos.) *)
+Theorem C10_real :
+  forall (ustate : Type) (scfg : state_cfg) (tcfg : term_cfg) (fcfg : fields_cfg) (rcfg : rule_cfg)
+         (hk : hooks ustate) (g : grammar) fuel rule_name input u e gl',
+    m_parse ustate scfg tcfg fcfg rcfg hk g fuel rule_name input u = (MErr e, gl') ->
+    In e (g_fails gl') \/ e_spec e = LeftRecursionSentinel \/ e_spec e = OtherError.
+Proof. intros. eapply reported_error_is_real; eauto. Qed.
+Print Assumptions C10_real.
